@@ -147,7 +147,7 @@ def rule_validatefirst(ctx):
     got = sorted(a.a[0] for c in s.calls() if c.callee == "util.validate_intervals" for a in c.args if a.op == "param")
     yield ob("C14.VALIDATEFIRST", f, "chord.directional_hamming_distance:util.validate_intervals", got == sorted(f.params[:2]), "both interval arrays are validated (%s)" % got)
     # the per-task validate() themselves delegate to the shared validators
-    for qual, callee, n in (("beat.validate", "util.validate_events", 2), ("onset.validate", "util.validate_events", 2), ("segment.validate_boundary", "util.validate_intervals", 2), ("segment.validate_structure", "util.validate_intervals", 2), ("transcription.validate_intervals", "util.validate_intervals", 2), ("transcription.validate", "transcription.validate_intervals", 2), ("transcription_velocity.validate", "transcription.validate", 4), ("multipitch.validate", "util.validate_events", 2), ("multipitch.validate", "util.validate_frequencies", 2), ("tempo.validate", "tempo.validate_tempi", 2), ("key.validate", "key.validate_key", 2), ("util.intervals_to_durations", "util.validate_intervals", 1), ("chord.validate", "chord.validate_chord_label", 2), ("hierarchy.validate_hier_intervals", "hierarchy.validate_structure", 1)):
+    for qual, callee, n in (("beat.validate", "util.validate_events", 2), ("onset.validate", "util.validate_events", 2), ("segment.validate_boundary", "util.validate_intervals", 2), ("segment.validate_structure", "util.validate_intervals", 2), ("transcription.validate_intervals", "util.validate_intervals", 2), ("transcription.validate", "transcription.validate_intervals", 2), ("transcription_velocity.validate", "transcription.validate", 4), ("multipitch.validate", "util.validate_events", 2), ("multipitch.validate", "util.validate_frequencies", 2), ("tempo.validate", "tempo.validate_tempi", 2), ("key.validate", "key.validate_key", 2), ("util.intervals_to_durations", "util.validate_intervals", 1), ("chord.validate", "chord.validate_chord_label", 2), ("chord.split", "chord.validate_chord_label", 1), ("hierarchy.validate_hier_intervals", "hierarchy.validate_structure", 1)):
         f = ctx.program.func(qual, "C14.VALIDATEFIRST")
         s = ctx.S.get(qual)
         calls = [c for c in s.calls() if c.callee in (callee, callee.replace("hierarchy.validate_structure", "segment.validate_structure"))]
@@ -158,6 +158,9 @@ def rule_validatefirst(ctx):
             for a in c.args:
                 covered |= _expand_params(a)
         want = {p for p in f.params if role_of(p) or p in ("intervals", "intervals_hier")}
+        if qual == "chord.split":
+            want = {"chord_label"}
+            covered |= {"chord_label"} if any(c.callee == callee for c in calls) and any(c2.callee == callee for c2 in s.calls()[:3]) else set()
         if callee == "util.validate_frequencies":
             want = {p for p in f.params if "freq" in p}
         if callee == "util.validate_events" and qual == "multipitch.validate":
@@ -366,8 +369,8 @@ FACETS = [
     F("alignment.percentage_correct_segments", "ref-all-identical", "<=", ["p:reference_timestamps"], ["c:0"]),
     # malformed values
     F("key.validate_key", "form", "!=", ["f:builtins.len", "p:key"], ["c:2"]),
-    F("key.validate_key", "x-with-mode", "==", ["c:'x'"], ["f:.lower"]),
-    F("key.validate_key", "unknown-key", "notin", ["f:.lower"], ["g:key.KEY_TO_SEMITONE"]),
+    F("key.validate_key", "x-with-mode", "==", ["c:'x'"], ["f:.lower", "f:.split"]),
+    F("key.validate_key", "unknown-key", "notin", ["f:.lower", "f:.split"], ["g:key.KEY_TO_SEMITONE"]),
     F("key.validate_key", "unknown-mode", "notin", [], ["c:'major'", "c:'minor'", "c:'other'"]),
     F("pattern.validate", "empty-pattern", "<=", ["f:builtins.len", "iter"], ["c:0"]),
     F("pattern.validate", "onset-midi-pair", "!=", ["f:builtins.len", "iter"], ["c:2"]),
